@@ -82,6 +82,12 @@ def piece_paths(ctx):
                 m = re.match(r"^(!?)eq\((0|1), a1%s*\.bracket_(min|max)\)$" % P, g)
                 if m:
                     pp.cmp[(m.group(3), int(m.group(2)))] = m.group(1) == ""
+                # the same tests on the pair bracket() hands back
+                m = re.match(r"^(!?)eq\((0|1), try\(ReCompiler::bracket\(a1%s*\)\) as Continue\.0\.(0|1)\)$" % P, g) or re.match(r"^(!?)eq\(try\(ReCompiler::bracket\(a1%s*\)\) as Continue\.0\.(0|1), (0|1)\)$" % P, g)
+                if m:
+                    a_, b_ = m.group(2), m.group(3)
+                    val, which = (int(a_), b_) if m.re.pattern.startswith("^(!?)eq\\((0|1), try") else (int(b_), a_)
+                    pp.cmp[("min" if which == "0" else "max", val)] = m.group(1) == ""
             # outcome
             pp.kind = None
             pp.args = None
@@ -114,6 +120,9 @@ def _minmax(pp):
 def _norm(a):
     a = re.sub(r"^a1%s*\.bracket_min$" % P, "BMIN", a)
     a = re.sub(r"^a1%s*\.bracket_max$" % P, "BMAX", a)
+    # bracket() handing its bounds back as a pair instead of storing them in the two fields
+    a = re.sub(r"^try\(ReCompiler::bracket\(a1%s*\)\) as Continue\.0\.0$" % P, "BMIN", a)
+    a = re.sub(r"^try\(ReCompiler::bracket\(a1%s*\)\) as Continue\.0\.1$" % P, "BMAX", a)
     return a
 
 
